@@ -104,8 +104,8 @@ func (s fsSpec) nodes() int {
 }
 
 // names: plain, with a space and a byte that is not valid UTF-8 (Latin-1 é:
-// file names are byte strings), valid multi-byte, numeric, a lone 0xff
-var fsNames = []string{"a", "caf\xe9 b", "é", "0", "\xff"}
+// file names are byte strings), valid multi-byte, format verbs, a lone 0xff
+var fsNames = []string{"a", "caf\xe9 b", "é", "50%d off %s", "\xff"}
 var fsKinds = []string{"E", "F", "Lr", "La", "Ld", "D"}
 
 func fsRank(k string) int {
@@ -488,6 +488,9 @@ func runC18(r *core.Run) {
 		// entries with special permission bits are ordinary files and directories
 		fsCase{Root: fsSpec{Kind: "Fs"}}, fsCase{Root: fsSpec{Kind: "Ds"}},
 		fsCase{Root: fsSpec{Kind: "D", Children: []fsSpec{{Kind: "Fs"}, {Kind: "Ds"}, {Kind: "Fx"}, {Kind: "D", Children: []fsSpec{{Kind: "Ds"}}}}}},
+		// '%' in directory names at every depth (path construction must not treat
+		// names as format strings)
+		fsCase{Root: fsSpec{Kind: "D", Children: []fsSpec{{Kind: "F"}, {Kind: "F"}, {Kind: "F"}, {Kind: "D", Children: []fsSpec{{Kind: "F"}, {Kind: "F"}, {Kind: "F"}, {Kind: "D", Children: []fsSpec{{Kind: "F"}}}}}}}},
 		// files whose chunks repeat
 		fsCase{Root: fsSpec{Kind: "Z"}}, fsCase{Root: fsSpec{Kind: "ZA"}},
 		fsCase{Root: fsSpec{Kind: "D", Children: []fsSpec{{Kind: "Z"}, {Kind: "F"}, {Kind: "ZA"}}}},
